@@ -23,7 +23,7 @@ import os
 _HERE = os.path.dirname(os.path.abspath(__file__))
 REFERENCE = os.path.join(_HERE, 'reference_names.json')
 
-_PURE_FUNCS = {'isinstance', 'len', 'int', 'str', 'bool', 'min', 'max', 'abs', 'any', 'all', 'tuple', 'list', 'set', 'frozenset', 'sorted',
+_PURE_FUNCS = {'isinstance', 'len', 'int', 'str', 'bool', 'float', 'Fraction', 'Decimal', 'complex', 'min', 'max', 'abs', 'any', 'all', 'tuple', 'list', 'set', 'frozenset', 'sorted',
                'hex', 'ord', 'chr', 'repr', 'type', 'getattr', 'hasattr', 'range', 'enumerate', 'zip', 'sum', 'dict', 'bytes', 'bytearray'}
 _PURE_METHODS = {'strip', 'lstrip', 'rstrip', 'lower', 'upper', 'startswith', 'endswith', 'split', 'rsplit', 'replace', 'format', 'join', 'get',
                  'group', 'groups', 'keys', 'values', 'items', 'copy', 'bit_length', 'to_bytes', 'find', 'index', 'count', 'isdigit', 'casefold',
